@@ -257,7 +257,7 @@ def attribute(case, msgs):
 
 def run(ctx):
     quick = ctx.tier == "quick"
-    n_all, n_red, n_single, maxnest = (2, 3, 4, 2) if quick else (3, 4, 5, 3)
+    n_all, n_red, n_single, maxnest = (1, 3, 4, 2) if quick else (2, 4, 5, 3)
     case = common.rot(["lower", "upper", "mixed"], ctx.seed + 3)[0]
     en = functools.partial(enabled, maxnest=maxnest)
     hs = modsearch.all_histories(n_single, en)
